@@ -179,6 +179,10 @@ def run_impl(case, order, n_shots=None, want_sv=True, isv_override=None):
         isv = to_order(psi0, n, order)
         if case["backend"] == "sympy":
             isv = isv.reshape(-1, 1)
+        elif case.get("isv_kind") == "list":
+            isv = [complex(z) for z in isv]          # a plain Python list (Backend.simulate documents "list/array")
+        elif case.get("isv_kind") == "column":
+            isv = isv.reshape(-1, 1)
     f, sv = sim.simulate(c, return_statevector=want_sv, initial_statevector=isv)
     f = {k: float(np.real(complex(v))) if not hasattr(v, "__len__") else float(np.real(complex(np.asarray(v).ravel()[0]))) for k, v in f.items()}
     if sv is not None:
@@ -504,20 +508,20 @@ def sampled_stream(ck, orders, chunk=10 ** 7):
     big = [(chunk, False), (2 * chunk, False)] + ([(chunk, True), (chunk + 1, False), (chunk - 1, False), (3 * chunk, False)] if ck.tier == "thorough" else [])
     big = [(b, g) for b, g in big if 0 < b <= 4 * 10 ** 7]          # (a much larger constant would make these cases too slow: skipped, see notes)
     ck.notes["sampling_chunk_cases"] = [b for b, _ in big]
-    for i in range(n_rand + 2 + len(big)):
+    for i in range(n_rand + 3 + len(big)):
         backend = "cirq" if i % 10 else "sympy"
         case = gen_case(rng, backend, ck.tier)
         det = rng.random() < 0.3
         forced_shots = None
-        if i >= n_rand + 2:
-            forced_shots, gateless = big[i - n_rand - 2]
+        if i >= n_rand + 3:
+            forced_shots, gateless = big[i - n_rand - 3]
             backend, det = "cirq", False
             case = {"backend": "cirq", "n": 2, "n_arg": 2, "prefix": dense_prefix([0]) if gateless else [], "isv": gateless,
                     "gates": [] if gateless else [{"name": "RY", "target": [0], "control": None, "k": 3}, {"name": "CNOT", "target": [1], "control": [0], "k": None}]}
         elif i >= n_rand:
             # fixed cases, one per backend: a circuit WITHOUT gates and a supplied initial state (identity path of Backend.simulate)
-            backend = ["cirq", "sympy"][i - n_rand]
-            case = {"backend": backend, "n": 2, "n_arg": 2, "prefix": dense_prefix([0, 1]), "gates": [], "isv": True}
+            backend, kind = [("cirq", "array"), ("cirq", "list"), ("sympy", "column")][i - n_rand]
+            case = {"backend": backend, "n": 2, "n_arg": 2, "prefix": dense_prefix([0, 1]), "gates": [], "isv": True, "isv_kind": kind}
             det = False
         if det:
             names = ["X", "CNOT", "CX", "SWAP"] + (["CSWAP"] if backend == "cirq" else [])
@@ -552,7 +556,7 @@ def sampled_stream(ck, orders, chunk=10 ** 7):
         ck.case("sampled", json.dumps([case, n_shots], sort_keys=True), nontrivial=int(np.sum(probs > 1e-9)) >= 2,
                 sample={"n_shots": n_shots, "gates": case["gates"][:4], "frequencies": f},
                 tags=[backend, "n_shots=%d" % n_shots, "deterministic" if det else "random"] + ([] if case["gates"] else ["gate-less"])
-                + (["n_shots-multiple-of-chunk"] if n_shots % chunk == 0 else []))
+                + (["isv-%s" % case["isv_kind"]] if case.get("isv_kind") else []) + (["n_shots-multiple-of-chunk"] if n_shots % chunk == 0 else []))
         if bad and n_shots >= chunk:
             cls = "n_shots-multiple-of-sampling-chunk" if n_shots % chunk == 0 else "n_shots-above-sampling-chunk"
             ck.violation("C01/%s/sampled/invariant/%s" % (backend, cls), "simulate with n_shots=%d (sampling chunk %d): %s; frequencies %s; circuit %s"
@@ -824,6 +828,24 @@ def special_angles_stream(ck, orders):
 
 
 
+def gateless_stream(ck, orders):
+    """Circuits WITHOUT gates and a supplied initial statevector (identity path of Backend.simulate), exact mode: cirq with a 1-D array,
+    a Python list and a column matrix, sympy with the column matrix it requires; plus list-typed initial statevectors on circuits with gates."""
+    ck.stream("gate-less", "circuits without gates + initial_statevector (array / list / column) in exact mode on both backends, and list-typed initial "
+              "statevectors on cirq circuits with gates: returned statevector and frequencies vs the supplied state (np_sim oracle)")
+    for nq in (1, 2, 3):
+        pre = dense_prefix(list(range(nq)))
+        for backend, kind in (("cirq", "array"), ("cirq", "list"), ("cirq", "column"), ("sympy", "column")):
+            if backend == "cirq" and kind == "column":
+                continue        # cirq itself rejects a (2^n, 1) initial state for circuits with gates; not part of the documented formats
+            case = {"backend": backend, "n": nq, "n_arg": nq, "prefix": pre, "gates": [], "isv": True, "isv_kind": kind}
+            _judge(ck, "gate-less", case, orders[backend], [backend, "isv-" + kind, "gate-less"])
+        case = {"backend": "cirq", "n": nq, "n_arg": nq, "prefix": pre, "isv": True, "isv_kind": "list",
+                "gates": [{"name": "RY", "target": [0], "control": None, "k": 3}] + ([{"name": "CNOT", "target": [nq - 1], "control": [0], "k": None}] if nq > 1 else [])}
+        _judge(ck, "gate-less", case, orders["cirq"], ["cirq", "isv-list", "with-gates"])
+
+
+
 def float_stream(ck, orders):
     rng = ck.rng
     ck.stream("float-angles", "random circuits with uniform real angles in [-14, 14] (beyond +-4*pi) against np_sim (tolerance 1e-8), cirq and a few sympy; "
@@ -1029,6 +1051,7 @@ def run(ck):
     ck.notes["sampling_chunk"] = {"chunk_size": chunk, "loop_as_modelled": (tables.get("sampling") or {}).get("as_modelled")}
     guarded("sampled", sampled_stream, ck, orders, chunk)
     guarded("special-angles", special_angles_stream, ck, orders)
+    guarded("gate-less", gateless_stream, ck, orders)
     guarded("malformed", malformed_stream, ck, tables, orders)
     guarded("float-angles", float_stream, ck, orders)
     if ck.tier == "thorough":
